@@ -574,7 +574,8 @@ impl Xot {
     pub fn namespace_for_prefix(&self, node: Node, prefix: PrefixId) -> Option<NamespaceId> {
         for ancestor in self.ancestors(node) {
             if let Some(namespace) = self.namespaces(ancestor).get(prefix) {
-                if *namespace == self.no_namespace() {
+                // xmlns="" takes the default namespace out of scope
+                if *namespace == self.no_namespace() && prefix == self.empty_prefix() {
                     return None;
                 }
                 return Some(*namespace);
